@@ -506,7 +506,15 @@ fn ulp(x: f64) -> f64 {
 /// the property, stated directly on what the validated linear path returned
 fn oracle_linear(ctx: &mut Ctx, idx: usize, tag: &str, t: &Table, pts: &Points, outs: &[Out]) {
     if t.axes.iter().any(|a| a.len() < 2) {
-        return; // degenerate axes are outside the property's quantifier (handled as corpus findings)
+        // one-point axes are outside the property's quantifier, but the constructors accept them:
+        // a panic on the validated path is reported under its own key
+        for (p, o) in pts.pts.iter().zip(outs) {
+            if *o == Out::Panic && in_range(t, p) {
+                ctx.fail(idx, "interp/single_point_axis_panics", format!("{} with a one-point axis (accepted by new) panics at the in-range point {:?}", tag, p));
+                break;
+            }
+        }
+        return;
     }
     let scale = t.scale();
     for (i, (p, o)) in pts.pts.iter().zip(outs).enumerate() {
